@@ -26,6 +26,27 @@
 (*         "norecheck"   negative twin: no second check after creating     *)
 (*         "removefirst" negative twin: refresh removes the old lock file  *)
 (*                         before it creates the replacement               *)
+(*         "sleepfirst"  negative twin: check - wait - create - check again *)
+(*                         (only wrong under listing delay, ListLag)       *)
+(*         "f2ignore"    negative twin: the forced refresh reports success  *)
+(*                         although its second existence check found the   *)
+(*                         old lock file missing                           *)
+(*                                                                         *)
+(* Listing delay (ListLag = TRUE): a lock file is invisible to every       *)
+(* LISTING of the lock directory (ListOp of the two checks, the existence  *)
+(* checks F1 / F2 of the forced refresh, which list the directory) from    *)
+(* its creation until time passes (the next Wait or Tick: the delay is     *)
+(* shorter than every sleep of the protocol); Load / Remove by name are    *)
+(* not affected, removals are visible at once.  `fresh` is the set of      *)
+(* such files.                                                             *)
+(*                                                                         *)
+(* A third party whose clock is ahead by up to the documented margin       *)
+(* (MaxSkew = 3 units = 7.5 min) can remove the lock file of a LIVE holder *)
+(* (older than 22.5 min) while the holder's expiry monitor is just forcing *)
+(* a refresh (the monitor's time stamp lags the lock file's by the         *)
+(* duration of the last refresh).  robbedAt records when that happened;    *)
+(* the holder must stop within the time it is stalled (ExclusionMargin in  *)
+(* LockObs.tla).                                                           *)
 (*                                                                         *)
 (* hist records the schedule (who moved) that the harness replays into the *)
 (* real lockers; it is hidden by the VIEW in exhaustive runs.              *)
@@ -36,11 +57,13 @@ CONSTANTS N, MaxTime, MaxSkew, Budget, Variant, Faults, MaxToggle, Removal, Remo
           MaxAtt,    \* attempts of newLock per Lock() call that the model follows (>= 2)
           Crashes,   \* BOOLEAN: processes may die at any point
           StartBy,   \* processes start (in order 1, 2, ...) at times <= StartBy
-          HealOdds   \* schedule generation: a fault ends with probability 1/HealOdds per step
+          HealOdds,  \* schedule generation: a fault ends with probability 1/HealOdds per step
+          ListLag,   \* BOOLEAN: listings show a new lock file only after time has passed (next Wait / Tick)
+          FixSkew    \* BOOLEAN: the third party's clock is ahead by exactly MaxSkew (else any value in -MaxSkew..MaxSkew)
 
-VARIABLES now, files, pr, skewU, toggles, waits, hist, emitted
-vars == <<now, files, pr, skewU, toggles, waits, hist, emitted>>
-View == <<now, files, pr, skewU, toggles, emitted>>
+VARIABLES now, files, pr, skewU, toggles, waits, hist, emitted, fresh
+vars == <<now, files, pr, skewU, toggles, waits, hist, emitted, fresh>>
+View == <<now, files, pr, skewU, toggles, emitted, fresh>>
 
 Procs     == 1..N
 RefreshIv == 2
@@ -50,22 +73,24 @@ MaxTries  == 4
 UnitMs    == 150000
 
 NoFile == [o |-> -1, t |-> 0, x |-> FALSE, g |-> 0]      \* g: files are distinct even with equal time stamps
-OpStates   == {"list", "load", "create", "rmown", "rsave", "rrm", "f1", "fsave", "f2", "frm", "fclean", "unl"}
-HoldStates == {"hold", "rsave", "rrm", "f1", "fsave", "fsleep", "f2", "frm", "fclean", "stuck"}
-FStates    == {"f1", "fsave", "fsleep", "f2", "frm", "fclean"}
+OpStates   == {"list", "load", "create", "rmown", "rsave", "rrm", "f1", "fsave", "f2", "frm", "fclean", "fcleanok", "unl"}
+HoldStates == {"hold", "rsave", "rrm", "f1", "fsave", "fsleep", "f2", "frm", "fclean", "fcleanok", "stuck"}
+FStates    == {"f1", "fsave", "fsleep", "f2", "frm", "fclean", "fcleanok"}
 Terminal   == {"failed", "released", "dead"}
 
 Local(p) == now + pr[p].skew
+Visible  == files \ fresh       \* what a listing of the lock directory shows
 
 InitProc(s) == [pc |-> "idle", x |-> FALSE, mine |-> NoFile, repl |-> NoFile, listed |-> {}, checked |-> {},
                 tries |-> 0, att |-> 0, phase |-> 1, ctx |-> FALSE, lastRef |-> 0, monRef |-> 0, nextRef |-> 0,
-                forcing |-> FALSE, skew |-> s, down |-> {}, since |-> 0, used |-> 0, robbed |-> FALSE, ts |-> 0, newest |-> 0, gen |-> 0]
+                forcing |-> FALSE, skew |-> s, down |-> {}, since |-> 0, used |-> 0, robbed |-> FALSE, robbedAt |-> 0, ts |-> 0, newest |-> 0, gen |-> 0]
 
 Init ==
   /\ now = 0
   /\ \E R \in Remotes : files = R          \* lock files of holders on other hosts: [o |-> 0, t, x, g]
   /\ pr = [p \in Procs |-> InitProc(0)]       \* only clock differences matter: the processes define the reference,
-  /\ skewU \in (0 - MaxSkew)..MaxSkew         \* the observer (third party, remote judge) is off by skewU
+  /\ skewU \in (IF FixSkew THEN {MaxSkew} ELSE (0 - MaxSkew)..MaxSkew)   \* the observer (third party, remote judge) is off by skewU
+  /\ fresh = {}
   /\ toggles = 0
   /\ waits = 0
   /\ hist = IF Emit THEN [k \in 1..Cardinality(files) |-> [op |-> "remote", p |-> 0, x |-> (CHOOSE f \in files : TRUE).x, k |-> ""]] ELSE <<>>
@@ -122,13 +147,14 @@ Errored(r) ==
 
 Holding(r, lp) == [r EXCEPT !.pc = "hold", !.ctx = TRUE, !.lastRef = r.ts, !.monRef = lp, !.nextRef = now + RefreshIv,
                             !.listed = {}, !.checked = {}]
-PhaseDone(r, lp) == IF r.phase = 1 THEN [r EXCEPT !.pc = "create", !.listed = {}] ELSE Holding(r, lp)
+PhaseDone(r, lp) == IF r.phase = 1 THEN [r EXCEPT !.pc = IF Variant = "sleepfirst" THEN "sleep1" ELSE "create", !.listed = {}]
+                    ELSE Holding(r, lp)
 
 ListOp(p) ==
   LET r == pr[p] IN
   /\ r.pc = "list"
   /\ IF "List" \in r.down THEN Move(p, Errored(r), StepH(p))
-     ELSE LET L == {f \in files : f \notin r.checked /\ f # r.mine} IN
+     ELSE LET L == {f \in Visible : f \notin r.checked /\ f # r.mine} IN
           IF L = {} THEN Move(p, PhaseDone(r, Local(p)), StepH(p))
           ELSE Move(p, [r EXCEPT !.pc = "load", !.listed = L], StepH(p))
   /\ UNCHANGED files
@@ -150,7 +176,9 @@ Create(p) ==
           THEN files' = files \cup {NewFile(p)} /\ Move(p, [r EXCEPT !.pc = "failed"], StepH(p))
      ELSE LET f == NewFile(p) IN
           /\ files' = files \cup {f}
-          /\ Move(p, [r EXCEPT !.pc = "sleep", !.mine = f, !.newest = r.ts, !.gen = @ + 1], StepH(p))
+          /\ IF Variant = "sleepfirst"      \* the wait came before: the second check follows at once
+             THEN Move(p, [r EXCEPT !.pc = "list", !.phase = 2, !.tries = 0, !.checked = {}, !.mine = f, !.newest = r.ts, !.gen = @ + 1], StepH(p))
+             ELSE Move(p, [r EXCEPT !.pc = "sleep", !.mine = f, !.newest = r.ts, !.gen = @ + 1], StepH(p))
 
 \* conflict in the second check: remove the own lock file, then (maybe) try again
 RmOwn(p) ==
@@ -214,7 +242,7 @@ FFail(r) == [r EXCEPT !.ctx = FALSE, !.forcing = FALSE, !.pc = "unl"]
 F1(p) ==
   LET r == pr[p] IN
   /\ r.pc = "f1" /\ UNCHANGED files
-  /\ IF ~r.ctx \/ "List" \in r.down \/ r.mine \notin files THEN Move(p, FFail(r), StepH(p))
+  /\ IF ~r.ctx \/ "List" \in r.down \/ r.mine \notin Visible THEN Move(p, FFail(r), StepH(p))
      ELSE Move(p, [r EXCEPT !.ts = Local(p), !.pc = "fsave"], StepH(p))
 
 FSave(p) ==
@@ -229,14 +257,19 @@ FSave(p) ==
 F2(p) ==
   LET r == pr[p] IN
   /\ r.pc = "f2" /\ UNCHANGED files
-  /\ IF ~r.ctx \/ "List" \in r.down \/ r.mine \notin files THEN Move(p, [r EXCEPT !.pc = "fclean"], StepH(p))
+  /\ IF ~r.ctx \/ "List" \in r.down THEN Move(p, [r EXCEPT !.pc = "fclean"], StepH(p))
+     ELSE IF r.mine \notin Visible
+          THEN Move(p, [r EXCEPT !.pc = IF Variant = "f2ignore" THEN "fcleanok" ELSE "fclean"], StepH(p))
      ELSE Move(p, [r EXCEPT !.pc = "frm"], StepH(p))
 
 FClean(p) ==
   LET r == pr[p] IN
-  /\ r.pc = "fclean"
+  /\ r.pc \in {"fclean", "fcleanok"}
   /\ files' = IF "Remove" \in r.down THEN files ELSE files \ {r.repl}
-  /\ Move(p, FFail([r EXCEPT !.repl = NoFile]), StepH(p))
+  /\ IF r.pc = "fcleanok"        \* twin "f2ignore": the replacement is cleaned up, but the refresh reports success
+     THEN Move(p, [r EXCEPT !.repl = NoFile, !.lastRef = r.ts, !.monRef = Local(p), !.forcing = FALSE,
+                            !.pc = Ret([r EXCEPT !.forcing = FALSE])], StepH(p))
+     ELSE Move(p, FFail([r EXCEPT !.repl = NoFile]), StepH(p))
 
 FRm(p) ==
   LET r  == pr[p]
@@ -289,8 +322,8 @@ StaleByU(f) == (now + skewU) - f.t > STALE
 StaleRm ==
   /\ (\E f \in files : StaleByU(f)) \/ (Sim /\ files # {} /\ RandomElement(1..6) = 1)   \* `unlock` may run at any time
   /\ files' = {f \in files : ~StaleByU(f)}
-  /\ pr' = [p \in Procs |-> IF \E f \in files : f.o = p /\ StaleByU(f) THEN [pr[p] EXCEPT !.robbed = TRUE] ELSE pr[p]]
-  /\ Rec(H("stale", 0, FALSE, ""))
+  /\ pr' = [p \in Procs |-> IF \E f \in files : f.o = p /\ StaleByU(f) THEN [pr[p] EXCEPT !.robbed = TRUE, !.robbedAt = now] ELSE pr[p]]
+  /\ Rec(H("stale", 0, FALSE, ToString(skewU)))     \* k: how far the third party's clock is ahead (units)
   /\ UNCHANGED <<now, skewU, toggles, waits, emitted>>
 
 \* somebody removes the lock files of a live holder (unlock --remove-all, rm on the storage): outside C12's premise
@@ -298,13 +331,13 @@ Del(p) ==
   /\ Removal /\ toggles < MaxToggle /\ Rare(10)
   /\ pr[p].pc \in HoldStates /\ \E f \in files : f.o = p
   /\ files' = {f \in files : f.o # p}
-  /\ pr' = [pr EXCEPT ![p].robbed = TRUE]
+  /\ pr' = [pr EXCEPT ![p].robbed = TRUE, ![p].robbedAt = now]
   /\ toggles' = toggles + 1
   /\ Rec(H("del", p, FALSE, ""))
   /\ UNCHANGED <<now, skewU, waits, emitted>>
 
 \* fine-grained timers of one process fire (sleeps end, refresh ticker, monitor poll)
-Sleeping(r) == r.pc \in {"sleep", "fsleep", "retry"}
+Sleeping(r) == r.pc \in {"sleep", "sleep1", "fsleep", "retry"}
 RefreshDue(r, lp) == r.pc = "hold" /\ r.ctx /\ now >= r.nextRef
 MonitorDue(r, lp) == r.pc \in HoldStates /\ r.ctx /\ ~r.forcing /\ lp - r.monRef >= RTO
 TimerDue(r, lp) == Sleeping(r) \/ RefreshDue(r, lp) \/ MonitorDue(r, lp)
@@ -314,6 +347,7 @@ Fire(r, lp, tn) ==
   IF r1.pc = "sleep" THEN
        IF Variant = "norecheck" THEN [Holding(r1, lp) EXCEPT !.since = tn]
        ELSE [r1 EXCEPT !.pc = "list", !.phase = 2, !.tries = 0, !.checked = {}, !.since = tn]
+  ELSE IF r1.pc = "sleep1" THEN [r1 EXCEPT !.pc = "create", !.since = tn]
   ELSE IF r1.pc = "fsleep" THEN [r1 EXCEPT !.pc = "f2", !.since = tn]
   ELSE IF r1.pc = "retry" THEN [r1 EXCEPT !.pc = "list", !.since = tn]
   ELSE IF r1.pc = "hold" /\ r1.ctx /\ r1.forcing THEN [r1 EXCEPT !.pc = "f1", !.since = tn]
@@ -355,11 +389,15 @@ Done ==
   /\ Emit /\ ~emitted
   /\ emitted' = TRUE
   /\ PrintT(<<"SCHED", ToJson(hist)>>)
-  /\ UNCHANGED <<now, files, pr, skewU, toggles, waits, hist>>
+  /\ UNCHANGED <<now, files, pr, skewU, toggles, waits, hist, fresh>>
+
+\* listing delay: files created since time last passed are not listed yet
+FreshUpd ==
+  fresh' = IF ~ListLag \/ now' # now \/ waits' # waits THEN {} ELSE (fresh \cup (files' \ files)) \cap files'
 
 Act == (\E p \in Procs : ProcStep(p)) \/ StaleRm \/ Wait \/ Tick
 Next ==
-  \/ Busy /\ Act
+  \/ Busy /\ Act /\ FreshUpd
   \/ Sim /\ (Len(hist) >= HistMax \/ now >= MaxTime \/ \A p \in Procs : pr[p].pc \in Terminal) /\ Done
 
 Spec == Init /\ [][Next]_vars
@@ -377,10 +415,13 @@ ObsOf ==
    f   |-> SetToSeq0({<<f.o, (f.t - pr[f.o].skew) * UnitMs, B2I(f.x)>> : f \in {g \in files : g.o \in Procs}}),
    p   |-> [p \in Procs |-> <<B2I(Believes(p)), B2I(pr[p].ctx), B2I(pr[p].x), B2I(pr[p].robbed),
                               (pr[p].used + (IF pr[p].pc \in OpStates THEN now - pr[p].since ELSE 0)) * UnitMs, 0, 0,
-                              pr[p].newest * UnitMs>>],
+                              pr[p].newest * UnitMs, pr[p].robbedAt * UnitMs>>],
    r   |-> SetToSeq0({<<f.t * UnitMs, B2I(f.x)>> : f \in {g \in files : g.o = 0}})]
 
 InvExclusion     == Exclusion(ObsOf)
+\* with a third party whose clock is ahead (MaxSkew up to the margin): conflicting beliefs only while a robbed
+\* holder is stalled on its way to the existence check of its forced refresh (times are whole units here)
+InvExclusionMargin == ExclusionMargin(ObsOf, 0)
 InvHolderHasFile == HolderHasFile(ObsOf)
 InvFresh         == FreshWithin(ObsOf, UnitMs)     \* one unit: times are rounded to units in this model
 
